@@ -21,7 +21,7 @@ RULE = ("cycles of 1..8 elements (durations 1..50, also 1, 10^6), offsets 0..200
         "through its time_offset / cycle_elements setters before the first query. distinct = distinct case "
         "dicts; all cases are non-trivial (every one decides a window)")
 ASSUME = ["Python/numpy integer arithmetic is exact (model over Z)"]
-ROUTES = ["ctor", "setter", "deepcopy", "pickle", "kw_order"]
+ROUTES = ["ctor", "setter", "deepcopy", "pickle", "kw_order", "requery"]
 # how the cycle itself comes into being (all before the first query; staleness after a query is C11)
 CYCLE_ROUTES = ["ctor", "ctor", "offset_setter", "elements_setter", "both_setters", "copy", "sibling", "late_elements",
                 "default_fill"]
@@ -114,6 +114,17 @@ def build(c):
     if r == "pickle":
         light = pickle.loads(pickle.dumps(light))
     out_cyc = light.traffic_light_cycle if r in ("deepcopy", "pickle") else cyc
+    if r == "requery" and cr not in ("sibling",):
+        # the light has answered for this very time step while its cycle had another offset; the held cycle is then
+        # corrected in place through its public setter, and the same time step is asked again (seed C17-15)
+        t = int(c["t"]) if c["tt"] == "int" else np.int64(c["t"])
+        want = out_cyc.time_offset
+        out_cyc.time_offset = want + 1
+        try:
+            light.get_state_at_time_step(t)
+        except Exception:  # noqa - judged by the query that follows
+            pass
+        out_cyc.time_offset = want
     if cr == "late_elements":
         for el, (n, d) in zip(out_cyc.cycle_elements, c["els"]):
             el.duration = d if dt is None else getattr(np, dt)(d)
